@@ -106,6 +106,11 @@ Fixpoint run_loop (max_length : nat) (sents : list S) (st : mstate) : option (li
 End Loop.
 End Memo.
 
+(* what parse_sentence reads of a cached vector: result id and head flag (unary: the result id); what it would read of
+   the grammar's answer on categories: result category and head flag *)
+Definition id_view (e : mentry) : list (nat * bool) := map (fun p => (fst p, head_is_left (snd p))) e.
+Definition cat_view (rs : list cres) : list (cat * bool) := map (fun r => (rcat r, head_is_left r)) rs.
+
 (* ---------- replay of a recorded call: the correspondence with parsing.pyx ---------- *)
 (* one invocation of the user's binary_fun / unary_fun as the harness logs it: argument categories, results *)
 Inductive call := CBin (x y : cat) (rs : list cres) | CUn (x : cat) (rs : list cres).
@@ -157,9 +162,15 @@ Definition replay_agrees (cats roots : list cat) (log : list call) (final : list
   | None => false
   end.
 
-(* ---------- _chunks as Python evaluates it: range(0, 0, 0) raises ValueError on an empty list ---------- *)
+(* ---------- _chunks as Python evaluates it ----------
+     splits = math.ceil(len(list_) / max(num_chunks, 1))
+     for i in range(0, len(list_), splits): yield list_[i:i + splits]
+   range(0, 0, 0) raises "ValueError: range() arg 3 must not be zero": that is the case splits = 0, i.e. the empty
+   list (Glue.chunks silently gives [] there).  None = that ValueError.  A negative num_chunks behaves like 0
+   (max(num_chunks, 1) = 1), which is what Z.to_nat gives at the call site. *)
 Definition chunks_py {A} (l : list A) (num_chunks : nat) : option (list (list A)) :=
-  match l with [] => None | _ => Some (chunks l num_chunks) end.
+  let splits := ceil_div (length l) (Nat.max num_chunks 1) in
+  if Nat.eqb splits 0 then None else Some (chunks_go (length l) splits l).
 Fixpoint nat_list_eqb (a b : list nat) : bool :=
   match a, b with [], [] => true | x :: a', y :: b' => Nat.eqb x y && nat_list_eqb a' b' | _, _ => false end.
 Fixpoint nat_lists_eqb (a b : list (list nat)) : bool :=
